@@ -1,7 +1,7 @@
 (* PyBroker.v — the layer harness/pytrans3.py translates the broker's decision code into
    (hpfeeds/broker/server.py: Server.subscribe / unsubscribe / publish; hpfeeds/broker/connection.py:
-   Connection.is_closing / connection_lost / message_received / authenticate / on_publish / on_subscribe /
-   on_unsubscribe).  Definitions only; the equalities with the hand-written model are in BrokerGenEq.v.
+   Connection.is_closing / connection_lost / message_received / authenticate / on_auth / on_auth_result / on_publish /
+   on_subscribe / on_unsubscribe / connection_made; hpfeeds/asyncio/protocol.py: BaseProtocol.message_received).  Definitions only; the equalities with the hand-written model are in BrokerGenEq.v.
 
    A method body becomes a computation over the broker model's [state] (Broker.v): it ends normally with a value
    and a state, raises (state as mutated at the raise), or runs out of the fuel of a nested process_pending.
@@ -16,13 +16,21 @@
      X.ak / pubchans / subchans / authrand     ak / pubchans / subchans / nonce (conns s X)
      X.active_subscriptions (a set)            active (conns s X)   (a duplicate-free list; iteration order = list order)
      server.subscriptions[chan] (a list)       subs s chan          (kept newest-first; .append = cons, .remove = rmn)
-     X._lookups_pending (a count)              length (pending (conns s X))
+     X._lookups_pending (a count) and the done-callbacks registered by on_auth (closures holding ident and digest)
+                                               pending (conns s X): ONE queue of (ident, digest); `+= 1` next to
+                                               add_done_callback adds nothing, `-= 1` in on_auth_result pops the head
+     inspect.isawaitable(server.get_authkey(i))  async_store;  the synchronous answer: store i
+     task.result()                             the event's verdict: RRaise = it raises, RLook l = it returns l
+     readauth/readpublish/readsubscribe/readunsubscribe(data)      Wire's readers (None = the reader raises);
+                                               ProtoGenEq.v proves them equal to the translated protocol.py
      X.transport.close() / is_closing()        cl X / closing (conns s X)
      X.error(text)                             wr X FError          (the text is not modelled)
      dest.publish(i, c, d)                     wr dest (FPub i c d) (BaseProtocol.publish: transport.write(msgpublish ..))
      CLIENT_CONNECTIONS / CONNECTION_MADE / CONNECTION_LOST / SUBSCRIPTIONS
                                                g_conn / g_made / g_lost (sum over labels) / g_subs
-     every other metric, log.*, uid, MeteredSocket, set_write_buffer_limits      not modelled, skipped by the translator *)
+     every other metric, log.*, uid, peer/port, MeteredSocket, set_write_buffer_limits, the keep-alive socket options
+                                               not modelled, skipped by the translator and ASSUMED NOT TO RAISE
+                                               (C19's setup-fault probe covers connection_made failing there) *)
 From Coq Require Import ZArith List Bool Arith.
 From Coq Require Import Strings.Byte.
 From HP Require Import Bytes Utf8 Sha1 Wire Broker.
@@ -101,3 +109,16 @@ Definition letB {A} (f : state -> A) (k : A -> BM ctl) : BM ctl := fun s => k (f
 (* set.remove / list.remove: KeyError / ValueError when the element is absent *)
 Definition chk (b : state -> bool) (f : state -> state) : BM ctl :=
   fun s => if b s then BOk None (f s) else BRaise s.
+
+(* ---- asynchronous lookups, registration ------------------------------------------------------ *)
+(* task.add_done_callback(lambda task: self.on_auth_result(task, ident, secret)) together with self._lookups_pending += 1:
+   the queue of completions registered for this connection (its length is the count of lookups in flight) *)
+Definition p_enqueue (q : nat) (i : ident) (dg : bytes) : state -> state :=
+  modc q (fun c => set_pending (pending c ++ [(i, dg)]) c).
+(* self._lookups_pending -= 1 at the top of on_auth_result: the completion that is running leaves the queue *)
+Definition p_pop_pending (q : nat) : state -> state := modc q (fun c => set_pending (tl (pending c)) c).
+(* self.server.connections.add(self) in connection_made *)
+Definition p_register (q : nat) : state -> state := modc q (set_copen true).
+(* Connection(server): the object before connection_made - authrand = os.urandom(4) = n, nothing else set *)
+Definition p_new_conn (q : nat) (n : bytes) (s : state) : state :=
+  set_ids (q :: ids s) (set_conns (upd (conns s) q (set_nonce n (set_made true conn0))) s).
